@@ -146,6 +146,10 @@ impl<'a, T> IterVectorsMut<'a, T> {
             vector_length,
         });
 
+        #[cfg(feature = "verif-hooks")]
+        crate::verif_hooks::record_ptr(0, lower.addr().get());
+        #[cfg(feature = "verif-hooks")]
+        crate::verif_hooks::record_ptr(1, upper.addr().get());
         Self {
             lower,
             upper,
@@ -176,6 +180,8 @@ impl<'a, T> Iterator for IterVectorsMut<'a, T> {
             } else {
                 unsafe { self.lower.add(stride) }
             };
+            #[cfg(feature = "verif-hooks")]
+            crate::verif_hooks::record_ptr(2, self.lower.addr().get());
         }
 
         Some(result)
@@ -220,6 +226,8 @@ impl<T> DoubleEndedIterator for IterVectorsMut<'_, T> {
             } else {
                 unsafe { self.upper.sub(stride) }
             };
+            #[cfg(feature = "verif-hooks")]
+            crate::verif_hooks::record_ptr(3, self.upper.addr().get());
         }
 
         Some(result)
@@ -345,6 +353,10 @@ impl<'a, T> IterNthVectorMut<'a, T> {
             unsafe { lower.add(offset) }
         };
 
+        #[cfg(feature = "verif-hooks")]
+        crate::verif_hooks::record_ptr(10, lower.addr().get());
+        #[cfg(feature = "verif-hooks")]
+        crate::verif_hooks::record_ptr(11, upper.addr().get());
         Self {
             lower,
             upper,
@@ -376,6 +388,8 @@ impl<'a, T> Iterator for IterNthVectorMut<'a, T> {
             } else {
                 unsafe { self.lower.add(stride) }
             };
+            #[cfg(feature = "verif-hooks")]
+            crate::verif_hooks::record_ptr(12, self.lower.addr().get());
         }
 
         Some(result)
@@ -421,6 +435,8 @@ impl<T> DoubleEndedIterator for IterNthVectorMut<'_, T> {
             } else {
                 unsafe { self.upper.sub(stride) }
             };
+            #[cfg(feature = "verif-hooks")]
+            crate::verif_hooks::record_ptr(13, self.upper.addr().get());
         }
 
         Some(result)
